@@ -78,6 +78,24 @@ def h_ctor(F, R):
             R.check(ok, "H-ctor", "%s/site/%s" % (name, f["root"]),
                     "%s is constructed in %s, outside its validating constructor: decoded packets may then carry an invalid %s" % (name, f["root"], name), where=loc(x))
         R.floor("H-ctor", "%s construction sites" % name, len([1 for fid, f, x in lst if (f.get("impl_trait") or "").rsplit("::", 1)[-1] != "Arbitrary"]), 1)
+    # field writes: a validated value is never modified in place outside its constructor / arithmetic impls
+    # (`self.shared_filter_sep = 0` would make two filters with the same text answer the accessors differently)
+    for fid, f, b in all_bodies(F):
+        tr = (f.get("impl_trait") or "").rsplit("::", 1)[-1]
+        if tr == "Arbitrary" or (f.get("impl_derived") and tr == "Clone"):
+            continue
+        for x in walk_all(b):
+            if x.get("k") in ("Assign", "AssignOp"):
+                l = strip(x["l"])
+                while l.get("k") in ("Deref",):
+                    l = strip(l["e"])
+                if l.get("k") == "Field" and l.get("adt") in VALIDATED:
+                    path = l["adt"]
+                    name = path.rsplit("::", 1)[1]
+                    okk = f.get("impl_adt") == path and f.get("name") in VALIDATED[path]["allowed"] | {"add_assign", "sub_assign"}
+                    R.check(okk, "H-ctor", "%s/field-write/%s" % (name, f["root"]),
+                            "%s.%s is assigned in %s, outside the validating constructor: values that passed validation are changed afterwards" % (
+                                name, l.get("name"), f["root"]), where=loc(x))
     # the validating constructors themselves, evaluated (r_pe3)
     import r_pe3
     r_pe3.h_ctor_values(F, R)
@@ -314,6 +332,7 @@ def h_fields(F, R):
                 "%s for TopicFilter reads fields %s (must depend on the text `inner` only)" % (tr, sorted(fields)), where=fid[0])
     import r_pe3
     r_pe3.h_fields_values(F, R)
+    r_pe3.h_display(F, R)
     R.floor("H-fields", "hand-written impls", n, 6)
     # the constructor stores the argument itself
     R.trust("String's own Eq/Ord/Hash/Display depend on the text only")
@@ -382,19 +401,9 @@ def h_accessors(F, R):
 def h_tn(F, R):
     """TopicName: constructor keeps the text; Deref/Display return it; is_shared/is_sys are prefix tests."""
     adt = "common::types::TopicName"
-    for m, const in (("is_shared", "SHARED_PREFIX"), ("is_sys", "SYS_PREFIX")):
-        b = unblock(nbody(F, adt + "::" + m))
-        ok = b.get("k") == "Call" and b["fn"].get("def") == "core::str::<impl str>::starts_with" and \
-            pp(peel_as_str(b["args"][0])).lstrip("&*") == "self.0" and strip(b["args"][1]).get("k") == "NamedConst" and strip(b["args"][1])["name"] == const
-        R.check(ok, "H-tn-read", m, "TopicName::%s is %s (expected self.0.starts_with(%s))" % (m, pp(b)[:120], const), where=adt + "::" + m)
-    R.check(F.const_value("common::SHARED_PREFIX") == {"str": "$share/"} and F.const_value("common::SYS_PREFIX") == {"str": "$SYS/"},
-            "H-tn-read", "prefix-constants", "SHARED_PREFIX / SYS_PREFIX are %r / %r" % (F.const_value("common::SHARED_PREFIX"), F.const_value("common::SYS_PREFIX")))
-    d = F.impl_method("Deref", adt, "deref")
-    b = unblock(nbody(F, d))
-    R.check(pp(peel_as_str(b)).lstrip("&*") == "self.0", "H-tn-read", "deref", "TopicName::deref returns %s" % pp(b)[:80], where=d)
-    d = F.impl_method("Display", adt, "fmt")
-    fields, _ = _fields_read(F, d, adt)
-    R.check(fields == {"0"}, "H-tn-read", "display", "Display for TopicName reads %s" % fields, where=d)
+    import r_pe3
+    r_pe3.h_tn_values(F, R)
+    r_pe3.h_display(F, R)
     # decode paths that produce a topic name all go through TopicName::try_from(read_string(..)?)
     n = 0
     for fid, f, b in all_bodies(F):
